@@ -78,15 +78,26 @@ def header_of(rows, first=()):
 
 
 def choices_rows(form):
-    rows = []
+    per_list = []
     for lst in form.get("lists", []):
+        cur = []
         for r in lst["rows"]:
             row = {}
             if lst.get("name") is not None:
                 row[form.get("list_col", "list_name")] = lst["name"]
             row.update(r)
-            rows.append(row)
-    return rows
+            cur.append(row)
+        per_list.append(cur)
+    if form.get("choices_interleave"):
+        # the rows of one list need not be contiguous on the sheet: deal them out round robin
+        rows = []
+        i = 0
+        while any(per_list):
+            if per_list[i % len(per_list)]:
+                rows.append(per_list[i % len(per_list)].pop(0))
+            i += 1
+        return rows
+    return [r for cur in per_list for r in cur]
 
 
 def to_sheets(form):
